@@ -162,14 +162,35 @@ func (c16Harness) Run(spec any) (res verifsim.RunResult) {
 	type clientOut struct {
 		createErr, dialErr error
 		envs               []protocol.Envelope
+		readErr            error // ReadLoop ended before the client itself stopped
+		sendErr            error
 	}
+	exchange := sp.HostID != sp.RecvID // with equal ids an addressed message has no unique target
 	var hostOut, recvOut clientOut
 	var sessionID, joinCode string
 	var done atomic.Int32
 	var outcome verifsim.Outcome
 	s, bubblePanic := runWorld(sp.Seed, sp.Strat, sp.SegMax, sp.Flags, false, func(w *world) {
-		collect := func(c *wsclient.Conn, out *clientOut, ctx context.Context) {
-			_ = c.ReadLoop(ctx, func(env protocol.Envelope) { out.envs = append(out.envs, env) })
+		collect := func(c *wsclient.Conn, out *clientOut, ctx context.Context, onEnv func(protocol.Envelope)) {
+			err := c.ReadLoop(ctx, func(env protocol.Envelope) {
+				out.envs = append(out.envs, env)
+				if onEnv != nil {
+					onEnv(env)
+				}
+			})
+			if ctx.Err() == nil {
+				out.readErr = fmt.Errorf("connection ended by the server: %v", err)
+			}
+		}
+		say := func(c *wsclient.Conn, out *clientOut, to, text string) {
+			env, err := protocol.NewEnvelope(protocol.TypeOffer, protocol.NewMsgID(), map[string]string{"text": text})
+			if err == nil {
+				env.To = to
+				err = c.Send(env)
+			}
+			if err != nil && out.sendErr == nil {
+				out.sendErr = err
+			}
 		}
 		hostReady := make(chan struct{})
 		verifsim.Go("H", func() {
@@ -194,7 +215,15 @@ func (c16Harness) Run(spec any) (res verifsim.RunResult) {
 				return
 			}
 			rctx, rcancel := context.WithCancel(context.Background())
-			verifsim.Go("H>read", func() { collect(c, &hostOut, rctx) })
+			verifsim.Go("H>read", func() {
+				collect(c, &hostOut, rctx, func(env protocol.Envelope) {
+					// the host answers the receiver's first message (one message per peer:
+					// within every message-rate configuration of the grid)
+					if exchange && env.Type == protocol.TypeOffer && env.From == sp.RecvID {
+						say(c, &hostOut, sp.RecvID, "pong")
+					}
+				})
+			})
 			hostReady <- struct{}{}
 			time.Sleep(800 * time.Millisecond) // stays below the smallest idle/session timeouts of the grid
 			rcancel()
@@ -217,7 +246,24 @@ func (c16Harness) Run(spec any) (res verifsim.RunResult) {
 				return
 			}
 			rctx, rcancel := context.WithCancel(context.Background())
-			verifsim.Go("R>read", func() { collect(c, &recvOut, rctx) })
+			gotList := make(chan struct{}, 1)
+			verifsim.Go("R>read", func() {
+				collect(c, &recvOut, rctx, func(env protocol.Envelope) {
+					if env.Type == protocol.TypePeerList {
+						select {
+						case gotList <- struct{}{}:
+						default:
+						}
+					}
+				})
+			})
+			if exchange {
+				select {
+				case <-gotList:
+					say(c, &recvOut, sp.HostID, "ping")
+				case <-time.After(300 * time.Millisecond):
+				}
+			}
 			time.Sleep(500 * time.Millisecond)
 			rcancel()
 		})
@@ -301,6 +347,34 @@ func (c16Harness) Run(spec any) (res verifsim.RunResult) {
 			}
 			check("host", sp.HostID, hostOut.envs)
 			check("receiver", sp.RecvID, recvOut.envs)
+			// the connections must also be usable: one message each way, and nobody is
+			// dropped while the clients are still there (well inside every timeout of the grid)
+			if exchange {
+				res.Counters["message_exchange_checked"]++
+				has := func(envs []protocol.Envelope, from string) bool {
+					for _, e := range envs {
+						if e.Type == protocol.TypeOffer && e.From == from {
+							return true
+						}
+					}
+					return false
+				}
+				switch {
+				case hostOut.sendErr != nil || recvOut.sendErr != nil:
+					addV("message-exchange-failed", "send", fmt.Sprintf("send failed after connecting (flags [%s]): host=%v receiver=%v", cfg, hostOut.sendErr, recvOut.sendErr))
+				case !has(hostOut.envs, sp.RecvID):
+					addV("message-exchange-failed", "receiver-to-host", fmt.Sprintf("the receiver's first message never reached the host (flags [%s]); host read: %v, receiver read: %v", cfg, hostOut.readErr, recvOut.readErr))
+				case !has(recvOut.envs, sp.HostID):
+					addV("message-exchange-failed", "host-to-receiver", fmt.Sprintf("the host's answer never reached the receiver (flags [%s]); host read: %v, receiver read: %v", cfg, hostOut.readErr, recvOut.readErr))
+				}
+				if hostOut.readErr != nil || recvOut.readErr != nil {
+					who := "receiver"
+					if hostOut.readErr != nil {
+						who = "host"
+					}
+					addV("dropped-while-connected", who, fmt.Sprintf("the server ended a connection although the client was still there, less than 1 s after connecting (flags [%s]): host=%v receiver=%v", cfg, hostOut.readErr, recvOut.readErr))
+				}
+			}
 		}
 	}
 	if s != nil {
